@@ -1,8 +1,8 @@
 //! C06: executes the transport schedules printed by spec/ChunkedRead.tla against the three
 //! generated variants (blocking / tokio / async-std) of the login and world readers and writers.
 //!
-//! `vh chunks <schedules.ndjson> [--fault drop|dup]`
-//!   schedules.ndjson : REPLAY records of ChunkedRead  {"sid":class,"L":n,"sched":[k|0..],"eof":p|-1}
+//! `vh chunks <schedule dir> [--fault drop|dup]`
+//!   <dir>/sched-<class>.ndjson : REPLAY records of ChunkedRead {"sid":class,"L":n,"sched":[k|0..],"eof":p|-1}
 //!                      (k > 0: the transport makes k more bytes available, 0: the poll answers
 //!                      Pending, eof = p: the transport closes after p bytes, -1: never)
 //!   stdin            : WowmWire codec records with an extra field "cls" = schedule class to apply
@@ -646,9 +646,10 @@ pub fn login_writes<M: wow_login_messages::Message + Sync>(cx: &mut Cx, m: &M) {
 
 // ------------------------------------------------------------------------------------------------
 
-fn load_schedules(path: &str) -> Result<HashMap<u64, (usize, Vec<Sched>)>, String> {
-    let f = std::fs::File::open(path).map_err(|e| format!("{path}: {e}"))?;
-    let mut map: HashMap<u64, (usize, Vec<Sched>)> = HashMap::new();
+fn load_class(dir: &str, cls: u64) -> Result<(usize, Vec<Sched>), String> {
+    let path = format!("{dir}/sched-{cls}.ndjson");
+    let f = std::fs::File::open(&path).map_err(|e| format!("{path}: {e}"))?;
+    let mut out: Option<(usize, Vec<Sched>)> = None;
     for line in io::BufReader::new(f).lines() {
         let line = line.map_err(|e| e.to_string())?;
         if line.trim().is_empty() {
@@ -670,19 +671,22 @@ fn load_schedules(path: &str) -> Result<HashMap<u64, (usize, Vec<Sched>)>, Strin
         if total != want {
             return Err(format!("schedule of class {sid} delivers {total} bytes, content is {want}"));
         }
-        let e = map.entry(sid).or_insert_with(|| (l, Vec::new()));
+        if sid != cls {
+            return Err(format!("{path}: record of class {sid}"));
+        }
+        let e = out.get_or_insert_with(|| (l, Vec::new()));
         if e.0 != l {
             return Err(format!("class {sid} has two lengths"));
         }
         e.1.push(Sched { items, eof });
     }
-    Ok(map)
+    out.ok_or_else(|| format!("{path}: no schedule"))
 }
 
 pub fn run(args: &[String]) -> i32 {
     install_quiet_panic_hook();
     let Some(path) = args.first() else {
-        eprintln!("usage: vh chunks <schedules.ndjson> [--fault drop|dup]");
+        eprintln!("usage: vh chunks <schedule dir> [--fault drop|dup]");
         return 2;
     };
     let mut fault = Fault::None;
@@ -698,13 +702,7 @@ pub fn run(args: &[String]) -> i32 {
         }
         i += 1;
     }
-    let classes = match load_schedules(path) {
-        Ok(m) => m,
-        Err(e) => {
-            eprintln!("chunks: {e}");
-            return 2;
-        }
-    };
+    let mut classes: HashMap<u64, (usize, Vec<Sched>)> = HashMap::new();
     let stdin = io::stdin();
     let stdout = io::stdout();
     let mut w = io::BufWriter::new(stdout.lock());
@@ -725,6 +723,21 @@ pub fn run(args: &[String]) -> i32 {
         if rec["kind"] != "codec" {
             continue;
         }
+        let cls = rec["cls"].as_u64().unwrap_or(u64::MAX);
+        if !classes.contains_key(&cls) {
+            match load_class(path, cls) {
+                Ok(c) => {
+                    classes.clear(); // records arrive grouped by class; keep one class in memory
+                    classes.insert(cls, c);
+                }
+                Err(e) => {
+                    // a malformed / missing schedule file is a failure of the machinery
+                    w.flush().unwrap();
+                    eprintln!("chunks: {e}");
+                    return 2;
+                }
+            }
+        }
         n += 1;
         writeln!(w, "@{n}").unwrap();
         w.flush().unwrap();
@@ -743,11 +756,7 @@ pub fn run(args: &[String]) -> i32 {
                 continue;
             }
         };
-        let cls = rec["cls"].as_u64().unwrap_or(u64::MAX);
-        let Some((l, scheds)) = classes.get(&cls) else {
-            writeln!(w, "{}", base("harness_unsupported", "", 1, json!("no schedule class"))).unwrap();
-            continue;
-        };
+        let (l, scheds) = classes.get(&cls).unwrap();
         if *l != input.bytes.len() {
             writeln!(w, "{}", base("harness_unsupported", "", 1,
                 json!(format!("schedule class of length {l} applied to {} bytes", input.bytes.len())))).unwrap();
